@@ -4,7 +4,7 @@ from ..norm import n, P, C, V, ANY, match, find_all, binop
 from . import layout, common, cmpmodel, c05, c09
 
 ID = "C15"
-CONFIGS = {"quick": ["K0", "K7", "K9"], "thorough": ["K0", "K7", "K9", "K11", "K1", "K2", "K19", "K21"]}
+CONFIGS = {"quick": ["K0", "K7", "K9", "K11"], "thorough": ["K0", "K7", "K9", "K11", "K12", "K16", "K1", "K2", "K19", "K21"]}
 META = {
     "explanation": (
         "Static analysis (MIR paths, resolved callees per instantiation, constant evaluator).  In the strict "
@@ -15,7 +15,10 @@ META = {
         "value); the lenient configuration contains neither gate.  The validity predicates are `code < 170` and, resolved "
         "per variant, `checksum <= 48` for (1 byte, 48 buckets) and constant true otherwise.  The generator cannot emit an "
         "invalid part: the 48-bucket checksum byte is always an element of the 48-fold table (max 48 by value), the length "
-        "code is bottom+i <= 169 by the bracket table, and finalize copies the checksum unchanged."
+        "code is bottom+i <= 169 by the bracket table, and finalize copies the checksum unchanged.  R-15.4 (who may construct): "
+        "the raw constructors of the hash, the checksum part and the length part are not reachable from outside the crate and "
+        "are used only by the two gated parsers, the part decoders and the generator (or private helpers all of whose callers "
+        "are those) -- so no other entry point, e.g. a serde visitor, can build a hash around the strict gates."
     ),
     "trusted_base": ["rustc nightly front end, Instance resolution and constant evaluator", "core::slice::binary_search returns an index <= slice length"],
     "assumptions": [],
@@ -36,6 +39,7 @@ def run(ctx, FS):
         binary_gates(ctx, r1, F, strict)
         predicates(ctx, r2, F)
         generator(ctx, r3, F)
+        constructors(ctx, F)
     lenient = [k for k in sig if sig[k] is not None and "strict-parser" not in FS[k].features and "serde" not in FS[k].features]
     stricts = [k for k in sig if sig[k] is not None and "strict-parser" in FS[k].features]
     for ks in stricts:
@@ -43,6 +47,100 @@ def run(ctx, FS):
             same = sig[ks] == sig[kl]
             ctx.ob(r1, ("from_str_bytes", "strict-minus-gates==lenient"), same,
                    "after erasing the validity gates the strict (%s) and lenient (%s) parsers differ: %s" % (ks, kl, sorted(set(sig[ks]) ^ set(sig[kl]))[:3]), cfg=ks)
+
+
+# who may build a hash (or a checksum / length part) without going through the validity gates: frozen from the pinned tree,
+# one reason per entry.  Keys are matched on the path with generic arguments removed.
+UNCHECKED = {
+    "hash::inner::FuzzyHash::from_raw": {
+        "generate::inner::Generator::finalize_with_options": "parts come from the generator (R-15.3: always valid)",
+    },
+    "length::FuzzyHashLengthEncoding::from_raw": {
+        "hash::inner::FuzzyHash::try_from": "binary parser; its strict gate on the decoded value is R-15.1",
+        "length::FuzzyHashLengthEncoding::from_str_bytes": "text part decoder; the caller's strict gate on the decoded value is R-15.1",
+    },
+    "hash::checksum::FuzzyHashChecksumData::from_raw": {
+        "hash::inner::FuzzyHash::try_from": "binary parser; its strict gate on the decoded value is R-15.1",
+    },
+}
+LITERALS = {
+    "hash::inner::FuzzyHash": {"hash::inner::FuzzyHash::try_from", "hash::inner::FuzzyHash::from_str_bytes", "hash::inner::FuzzyHash::from_raw"},
+    "length::FuzzyHashLengthEncoding": {"length::FuzzyHashLengthEncoding::from_raw", "length::FuzzyHashLengthEncoding::new"},
+    "hash::checksum::FuzzyHashChecksumData": {"hash::checksum::FuzzyHashChecksumData::from_raw", "hash::checksum::FuzzyHashChecksumData::from_str_bytes",
+                                              "hash::checksum::FuzzyHashChecksumData::new"},
+}
+
+
+def _plain(path):
+    """path with generic argument lists, `<T as Trait>` wrappers and closure suffixes removed: the defining item"""
+    import re
+    p = path
+    while True:
+        q = re.sub(r"::\{closure#\d+\}$", "", p)
+        if q == p:
+            break
+        p = q
+    m = re.match(r"^<(.+) as (.+)>::(\w+)$", p)
+    if m:
+        p = m.group(1) + "::" + m.group(3)
+    out, depth = [], 0
+    for ch in p:
+        if ch == "<":
+            depth += 1
+        elif ch == ">":
+            depth -= 1
+        elif depth == 0:
+            out.append(ch)
+    return "".join(out).replace("::::", "::")
+
+
+def constructors(ctx, F):
+    r = "R-15.4"
+    ctx.rule(r, "who may build a hash, a checksum part or a length part from unchecked raw values: only the two parsers (whose strict gates R-15.1 decides), "
+                "the part decoders they call, and the generator; the raw constructors are not reachable from outside the crate -- so no other entry point "
+                "(a serde visitor, a helper) can bypass the strict gates")
+    from .. import callgraph
+    G = callgraph.CallGraph(F)
+    seen = 0
+    for tgt, allowed in UNCHECKED.items():
+        nodes = [p for p in G.nodes if _plain(p) == tgt]
+        ctx.instance(r)
+        if not nodes:
+            ctx.missing(r, "raw constructor %s" % tgt, cfg=F.key)
+            continue
+        for p in nodes:
+            bd = G.nodes[p]
+            ctx.ob(r, (tgt, "not-exported"), not bd.d.get("reachable"), "%s is reachable from outside the crate (effective visibility)" % tgt, cfg=F.key, where=bd.where())
+        users = sorted({_plain(s_) for s_, ds in G.edges.items() if any(d in ds for d in nodes)} - {tgt})
+        seen += len(users)
+
+        def ok(u, depth=0, stack=()):
+            # an allowed user, or a private helper all of whose callers are (transitively) allowed users
+            if u in allowed:
+                return True
+            if depth > 4 or u in stack:
+                return False
+            unodes = [p_ for p_ in G.nodes if _plain(p_) == u]
+            if not unodes or any(G.nodes[p_].d.get("reachable") or " as " in p_ for p_ in unodes):
+                return False  # exported, or a trait method (callable through the trait from anywhere)
+            callers = {_plain(s_) for s_, ds in G.edges.items() if any(d in ds for d in unodes)} - {u}
+            return bool(callers) and all(ok(c_, depth + 1, stack + (u,)) for c_ in callers)
+        extra = [u for u in users if not ok(u)]
+        ctx.ob(r, (tgt, "users"), not extra, "%s is also used by %s; reference users %s" % (tgt, extra, sorted(allowed)), cfg=F.key, detail={"users": users})
+    for adt, allowed in LITERALS.items():
+        users = set()
+        for b in F.bodies:
+            if not b.mir:
+                continue
+            for blk in b.blocks:
+                for s_ in blk["stmts"]:
+                    if s_.get("rv") == "agg" and s_.get("agg") == "adt" and s_.get("path") == adt:
+                        users.add(_plain(b.path))
+        ctx.instance(r)
+        seen += len(users)
+        extra = sorted(users - allowed)
+        ctx.ob(r, (adt, "struct-literal-sites"), not extra and bool(users), "%s { .. } is built in %s; reference only %s" % (adt, extra or "no function", sorted(allowed)), cfg=F.key, detail={"sites": sorted(users)})
+    ctx.floor(r, 6, "users of the raw constructors + struct-literal sites")
 
 
 def text_gates(ctx, r, F, strict):
